@@ -163,6 +163,7 @@ def impl_diff(case):
     axis = _axis_py(case["axis"])
     kd = case["keepdims"]
     bad = []
+    clause = None
 
     def dense_of(r):
         return r.todense() if hasattr(r, "todense") else np.asarray(r)
@@ -173,21 +174,33 @@ def impl_diff(case):
             return False
         if exact:
             return bool(np.array_equal(a, b, equal_nan=True))
-        return bool(np.allclose(a, b, rtol=1e-10, atol=1e-12, equal_nan=True))
+        narrow = any(str(t.dtype) in ("float32", "float16", "complex64") for t in (a, b))
+        return bool(np.allclose(a, b, rtol=1e-4 if narrow else 1e-10, atol=1e-6 if narrow else 1e-12, equal_nan=True))
 
     try:
-        if kind in ("mean", "var", "std"):
-            x = vlib.build_array(spec, dtype="int64")
-            d = vlib.spec_dense(spec)
-            kw = {"ddof": case["ddof"]} if kind != "mean" and case.get("ddof") else {}
-            r = getattr(x, kind)(axis=axis, keepdims=kd, **kw) if case["spelling"] == "method" else \
-                getattr(sparse, kind)(x, axis=axis, keepdims=kd, **({"correction": kw["ddof"]} if kw else {}))
+        if kind in ("mean", "var", "std", "nanmean"):
+            in_dt = case.get("in_dtype", "int64")
+            x = vlib.build_array(spec, dtype=in_dt)
+            d = vlib.spec_dense(spec, dtype=in_dt)
+            kw = {"ddof": case["ddof"]} if kind in ("var", "std") and case.get("ddof") else {}
+            if kind == "nanmean":      # NaN-free input: delegates to mean for non-float data
+                r = sparse.nanmean(x, axis=axis, keepdims=kd)
+            elif case["spelling"] == "method":
+                r = getattr(x, kind)(axis=axis, keepdims=kd, **kw)
+            elif case["spelling"] == "npfunc":
+                r = getattr(np, kind)(x, axis=axis, keepdims=kd, **kw)
+            else:
+                r = getattr(sparse, kind)(x, axis=axis, keepdims=kd, **({"correction": kw["ddof"]} if kw else {}))
             e = getattr(np, kind)(d, axis=axis, keepdims=kd, **kw)
             rd = dense_of(r)
+            narrow = in_dt in ("float32", "float16")
             if str(rd.dtype) != str(np.asarray(e).dtype):
                 bad.append(f"dtype {rd.dtype} vs numpy {np.asarray(e).dtype}")
-            if not same(rd, e, exact=(kind == "mean")):
+                if kind == "nanmean" and narrow and same(rd, e, exact=False):
+                    clause = "nanmean_narrow_float_result_dtype"
+            if not same(rd, e, exact=(kind in ("mean", "nanmean") and not narrow)):
                 bad.append(f"values {rd.tolist()} vs numpy {np.asarray(e).tolist()}")
+            kind = "mean" if kind == "nanmean" else kind
             # exact rationals
             ax = tuple(range(d.ndim)) if axis is None else ((axis,) if isinstance(axis, int) else axis)
             ax = tuple(a % d.ndim for a in ax) if d.ndim else ()
@@ -196,27 +209,35 @@ def impl_diff(case):
                 moved = np.moveaxis(d, ax, tuple(range(d.ndim - len(ax), d.ndim))).reshape(-1, n) if ax else d.reshape(-1, 1)
                 exp = []
                 for row in moved.tolist():
-                    mu = Fraction(sum(row), n)
+                    mu = sum(Fraction(t) for t in row) / n
                     if kind == "mean":
                         exp.append(float(mu))
                     else:
                         v = sum((Fraction(t) - mu) ** 2 for t in row) / (n - (case.get("ddof") or 0))
                         exp.append(float(v) if kind == "var" else math.sqrt(v))
-                if not same(np.asarray(rd, dtype=float).reshape(-1), np.array(exp), exact=(kind == "mean")):
+                if not same(np.asarray(rd, dtype=rd.dtype if rd.dtype.kind == "f" else float).reshape(-1), np.array(exp),
+                            exact=(kind == "mean" and not narrow)):
                     bad.append(f"values {np.asarray(rd).reshape(-1).tolist()} vs exact rationals {exp}")
         elif kind == "nan":
             fn = case["fn"]
-            d = vlib.spec_dense(spec).astype("float64")
+            fdt = case.get("in_dtype", "float64")
+            d = vlib.spec_dense(spec).astype(fdt)
             for pos in case["nanpos"]:
                 d[tuple(pos)] = np.nan
-            fill = float(spec["fill"])
+            fill = np.dtype(fdt).type(spec["fill"])
             x = sparse.COO.from_numpy(d, fill_value=fill)
             if spec["format"] == "gcxs":
                 x = sparse.GCXS.from_coo(x)
             r = getattr(sparse, fn)(x, axis=axis, keepdims=kd)
             e = getattr(np, fn)(d, axis=axis, keepdims=kd)
-            if not same(dense_of(r), e, exact=fn not in ("nanmean",)):
-                bad.append(f"values {np.asarray(dense_of(r)).tolist()} vs numpy {np.asarray(e).tolist()}")
+            rd = np.asarray(dense_of(r))
+            vals_ok = same(rd, e, exact=(fn not in ("nanmean",) and fdt == "float64"))
+            if str(rd.dtype) != str(np.asarray(e).dtype):
+                bad.append(f"dtype {rd.dtype} vs numpy {np.asarray(e).dtype}")
+                if fn == "nanmean" and fdt != "float64" and vals_ok:
+                    clause = "nanmean_narrow_float_result_dtype"
+            if not vals_ok:
+                bad.append(f"values {rd.tolist()} vs numpy {np.asarray(e).tolist()}")
         elif kind == "inffill":
             fill = float(case["fillv"])
             d = np.full(tuple(spec["shape"]), fill, dtype="float64")
@@ -244,8 +265,9 @@ def impl_diff(case):
         try:
             # an exception is a mismatch unless NumPy raises too
             raise_np = False
-            if kind in ("mean", "var", "std"):
-                getattr(np, kind)(vlib.spec_dense(spec), axis=axis, keepdims=kd)
+            if kind in ("mean", "var", "std", "nanmean"):
+                getattr(np, "mean" if kind == "nanmean" else kind)(vlib.spec_dense(spec, dtype=case.get("in_dtype", "int64")),
+                                                                    axis=axis, keepdims=kd)
             elif kind == "dtype":
                 getattr(np, case["uf"]).reduce(vlib.spec_dense(spec, dtype=case["in_dtype"]), axis=axis, keepdims=kd)
             elif kind == "inffill":
@@ -254,7 +276,7 @@ def impl_diff(case):
             raise_np = True
         if not raise_np:
             bad.append(f"raised {type(ex).__name__}: {str(ex)[:120]}")
-    return {"bad": bad}
+    return {"bad": bad, "clause": clause}
 
 
 def impl_any(case):
@@ -455,8 +477,58 @@ def kernel_cases(tier, rng):
     return cases
 
 
-def diff_cases(tier, rng):
+DTYPES = ["bool", "uint8", "int8", "int16", "int32", "int64", "float32", "float64"]
+DT_VALUES = {"bool": ((0, 1), (0, 1)), "uint8": ((1, 2, 3, 200), (0, 3)), "int8": ((-3, -1, 1, 2, 5), (0, 3, -1)),
+             "int16": ((-300, -1, 1, 2, 500), (0, 3, -1)), "int32": ((-3, -1, 1, 2, 5), (0, 3, -1)),
+             "int64": ((-3, -1, 1, 2, 5), (0, 3, -1)), "float32": ((-3, -1, 1, 2, 5), (0, 3, -1)),
+             "float64": ((-3, -1, 1, 2, 5), (0, 3, -1))}
+
+
+def dtype_spec(rng, shape, dt, fmt, density=None):
+    vals, fills = DT_VALUES[dt]
+    return vlib.gen_array_spec(rng, shape=shape, fills=(rng.choice(fills),), formats=(fmt,), values=vals, density=density)
+
+
+def dtype_matrix_cases(tier, rng):
+    """every data dtype x format x function on fixed small shapes, partial and full reductions: the result
+    VALUES and the RESULT DTYPE must be NumPy's (dtype promotion of mean/var/std, sum/prod/any/all/min/max)"""
     cases = []
+    shapes = [[3], [2, 3], [2, 3, 2]] if tier == "quick" else [[3], [1], [2, 3], [3, 1], [2, 3, 2], [2, 1, 3]]
+    for dt in DTYPES:
+        for fmt in ("coo", "gcxs"):
+            for shape in shapes:
+                nd = len(shape)
+                axes = [None, 0, -1] + ([list(range(nd))[::-1], [nd - 1, 0][:nd]] if nd >= 2 else [])
+                for axis in axes:
+                    for kd in (False, True):
+                        for fn in ("mean", "var", "std", "nanmean"):
+                            if tier == "quick" and fn in ("var", "std") and rng.random() < 0.5:
+                                continue
+                            spl = rng.choice(("method", "func", "npfunc"))
+                            # np.var(x, ddof=...) is not routed (sparse.var takes `correction`): a call-path matter (C17)
+                            ddof = rng.choice((0, 0, 1)) if fn in ("var", "std") and spl != "npfunc" else 0
+                            cases.append({"kind": fn, "in_dtype": dt, "spec": dtype_spec(rng, shape, dt, fmt),
+                                          "axis": axis, "keepdims": kd, "ddof": ddof, "spelling": spl})
+                        for uf in ("add", "multiply", "logical_or", "logical_and", "maximum", "minimum"):
+                            if tier == "quick" and rng.random() < 0.5:
+                                continue
+                            vals_small = dt in ("uint8", "int8") and uf == "multiply"
+                            sp = dtype_spec(rng, shape, dt, fmt)
+                            if vals_small:
+                                sp["data"] = [1 if v not in (0, 1) else v for v in sp["data"]]
+                                sp["fill"] = 1 if sp["fill"] not in (0, 1) else sp["fill"]
+                                sp["data"] = [2 if v == sp["fill"] else v for v in sp["data"]]
+                            if uf.startswith("logical") and sp["fill"] not in (0, 1):
+                                # any/all are expressible sparsely only for a fill that is its own truth value
+                                sp["fill"] = 0
+                                sp["data"] = [1 if v == 0 else v for v in sp["data"]]
+                            cases.append({"kind": "dtype", "uf": uf, "in_dtype": dt, "req": None, "spec": sp, "axis": axis,
+                                          "keepdims": kd, "spelling": rng.choice(SPELLINGS[True])})
+    return cases
+
+
+def diff_cases(tier, rng):
+    cases = dtype_matrix_cases(tier, rng)
     n = 1 if tier == "quick" else 8
     for ndim in range(0, 4):
         for axis in axis_args(ndim, rng, tier):
@@ -464,9 +536,10 @@ def diff_cases(tier, rng):
                 for _ in range(n):
                     shape = [rng.choice((1, 2, 3)) for _ in range(ndim)]
                     fmt = "gcxs" if ndim >= 1 and rng.random() < 0.4 else "coo"
-                    spec = vlib.gen_array_spec(rng, shape=shape, fills=(rng.choice((0, 0, 3, -1)),), formats=(fmt,))
+                    mdt = rng.choice(DTYPES)
+                    spec = dtype_spec(rng, shape, mdt, fmt)
                     kind = rng.choice(["mean", "var", "std"])
-                    cases.append({"kind": kind, "spec": spec, "axis": axis, "keepdims": kd,
+                    cases.append({"kind": kind, "in_dtype": mdt, "spec": spec, "axis": axis, "keepdims": kd,
                                   "ddof": rng.choice((0, 0, 1)) if kind != "mean" else 0,
                                   "spelling": rng.choice(("method", "func"))})
                     # nan-reductions (float data with NaN): zero fill as the code demands for nansum of NaN-free fill
@@ -474,9 +547,10 @@ def diff_cases(tier, rng):
                     allpos = [list(p) for p in itertools.product(*[range(d) for d in shape])]
                     nanpos = [p for p in allpos if rng.random() < 0.25]
                     cases.append({"kind": "nan", "fn": rng.choice(["nansum", "nanprod", "nanmax", "nanmin", "nanmean"]),
+                                  "in_dtype": rng.choice(["float64", "float64", "float32"]),
                                   "spec": spec2, "nanpos": nanpos, "axis": axis, "keepdims": kd})
                     uf = rng.choice(["add", "multiply", "maximum", "minimum"])
-                    in_dt = rng.choice(["int64", "int32", "uint8", "float64", "float32", "bool"])
+                    in_dt = rng.choice(DTYPES)
                     req = rng.choice([None, None, "float64", "int64", "float32", "int32"]) if uf in ("add", "multiply") else None
                     vals = (1, 2, 3) if in_dt != "bool" else (1,)
                     spec3 = vlib.gen_array_spec(rng, shape=shape, fills=(0,), formats=(fmt,), values=vals)
@@ -538,7 +612,7 @@ def diff_replay_line(c, name):
           + "".join(f"d[{tuple(p)!r}]={v}; " for p, v in zip(sp["coords"][:60], sp["data"][:60], strict=True))
           + "".join(f"d[{tuple(p)!r}]=np.nan; " for p in c.get("nanpos", []))
           + f"x=sparse.COO.from_numpy(d,fill_value=float('{fill}')); ")
-    if c["kind"] in ("mean", "var", "std", "dtype"):
+    if c["kind"] in ("mean", "var", "std", "nanmean", "dtype") or (c["kind"] == "nan" and c.get("in_dtype")):
         dt = c.get("in_dtype", "int64")
         mk += f"d=d.astype('{dt}'); x=sparse.COO.from_numpy(d,fill_value=d.dtype.type({sp['fill']})); "
     if sp["format"] == "gcxs":
@@ -547,14 +621,16 @@ def diff_replay_line(c, name):
     if c["kind"] in ("mean", "var", "std"):
         kw2 = kw + (f",ddof={c['ddof']}" if c.get("ddof") else "")
         call, ref = f"x.{c['kind']}({kw2})", f"np.{c['kind']}(d,{kw2})"
+    elif c["kind"] == "nanmean":
+        call, ref = f"sparse.nanmean(x,{kw})", f"np.nanmean(d,{kw})"
     elif c["kind"] == "nan":
         call, ref = f"sparse.{c['fn']}(x,{kw})", f"np.{c['fn']}(d,{kw})"
     else:
         kw2 = kw + (f",dtype='{c['req']}'" if c.get("req") else "")
         call, ref = f"np.{c['uf']}.reduce(x,{kw2})", f"np.{c['uf']}.reduce(d,{kw2})"
-    return (mk + f"\ntry: r={call}; print('sparse:', r.todense() if hasattr(r,'todense') else r)\n"
+    return (mk + f"\ntry: r={call}; r=r.todense() if hasattr(r,'todense') else np.asarray(r); print('sparse:', r.dtype, r.tolist())\n"
             f"except Exception as e: print('sparse raised', type(e).__name__, e)\n"
-            f"try: print('numpy :', {ref})\nexcept Exception as e: print('numpy raised', type(e).__name__, e)")
+            f"try: e_=np.asarray({ref}); print('numpy :', e_.dtype, e_.tolist())\nexcept Exception as e: print('numpy raised', type(e).__name__, e)")
 
 
 # ------------------------------------------------------------------ campaign
@@ -688,6 +764,8 @@ def campaign(build, tier, seed, report, budget=1):
     dcount = {}
     for c, r in zip(dc, dres, strict=True):
         name = c["kind"] if c["kind"] != "nan" else c["fn"]
+        if "in_dtype" in c:
+            tag(f"diff_dtype/{c['in_dtype']}/{name if c['kind'] != 'dtype' else c['uf']}")
         if c["kind"] == "inffill":
             name = "inf_fill:" + c["uf"]
         dcount[name] = dcount.get(name, 0) + 1
@@ -695,7 +773,8 @@ def campaign(build, tier, seed, report, budget=1):
         if badl:
             ax = _axis_py(c["axis"])
             viol.append({"property": "C03", "op": "reduce_differential", "function": name, "kind": "value",
-                         "clause": gcxs_clause(c["spec"], c["axis"]),
+                         "clause": (r.get("clause") if isinstance(r, dict) else None) or gcxs_clause(c["spec"], c["axis"]),
+                         "in_dtype": c.get("in_dtype"),
                          "format": c["spec"]["format"], "what": "; ".join(badl)[:400], "case": c, "impl": badl,
                          "replay_py": diff_replay_line(c, name)})
 
